@@ -105,21 +105,21 @@ def r1_words(ctx):
     f6 = pdb.fn("lrtr_ipv6_addr_equal")
     ctx.touch(f6)
 
-    def word_of(e, arg):
-        if e[0] == "load" and e[1][0] == "idx" and e[1][1] == ("fld", ("arg", arg), "lrtr_ipv6_addr.addr") and e[1][2][0] == "c":
-            return e[1][2][1]
+    def word_cell(pe):
+        if pe[0] == "idx" and pe[1][0] == "fld" and pe[1][1] in (("arg", 0), ("arg", 1)) and pe[1][2] == "lrtr_ipv6_addr.addr" and pe[2][0] == "c":
+            return pe[1][1][1], pe[2][1]
         return None
     for differ in (None, 0, 1, 2, 3):
-        def oracle(inst, pred, a, b, E, differ=differ):
-            for x, y in ((a, b), (b, a)):
-                wa, wb = word_of(x, 0), word_of(y, 1)
-                if wa is not None and wb is not None and pred in ("eq", "ne"):
-                    if wa != wb:
-                        return None            # comparing different words of the two addresses: not an equality test of a word
-                    same = wa != differ
-                    return same if pred == "eq" else not same
-            return None
-        outs, _f = es.count_effects(f6, pdb, lambda i, E, st: None, None, oracle=oracle)
+        # concrete words: both addresses carry the same four values, except that word `differ` of the second one is another value
+        def values(pe, differ=differ):
+            wc = word_cell(pe)
+            if wc is None:
+                return None
+            side, k = wc
+            if k not in (0, 1, 2, 3):
+                return None
+            return 0x20010db8 + 0x01010101 * k + (0x40000000 if (side == 1 and k == differ) else 0)
+        outs, _f = es.count_effects(f6, pdb, lambda i, E, st: None, None, values=values, cap=96)
         rets = {flow.av_single(o["ret"]) for o in outs}
         want = {1} if differ is None else {0}
         ctx.check(rets == want, "C02.R1", "ipv6_addr_equal[%s]" % ("all four words equal" if differ is None else "word %d differs" % differ),
